@@ -101,6 +101,10 @@ func (c *queueClass_[V]) MakeFromArray(values []V) QueueLike[V] {
 
 func (c *queueClass_[V]) MakeFromSequence(values Sequential[V]) QueueLike[V] {
 	var queue = c.Make()
+	if uint(values.GetSize()) > c.defaultCapacity_ {
+		// The initial values must fit within the capacity of the queue.
+		queue = c.MakeWithCapacity(uint(values.GetSize()))
+	}
 	var iterator = values.GetIterator()
 	for iterator.HasNext() {
 		var value = iterator.GetNext()
